@@ -1614,11 +1614,14 @@ where
                     });
                 }
 
-                entry.size = new_entry_size;
-                let entry_ptr = EntryPtr::new(entry as *mut Entry<K, V>);
-                self.current_size += diff;
+                // Make room before accounting for the growth, so that the sum
+                // can never exceed max_size (and thus never overflow).
+
+                let mut entry_ptr = EntryPtr::new(entry as *mut Entry<K, V>);
                 self.touch_ptr(entry_ptr);
-                self.eject_to_target(max_size);
+                self.eject_to_target(max_size - diff);
+                entry_ptr.get_mut().size = new_entry_size;
+                self.current_size += diff;
             }
             else {
                 // The operation was non-expanding; everything is ok.
